@@ -6,6 +6,8 @@ REDIR = {
     "(*github.com/ipld/go-ipld-prime/linking.LinkSystem).Load": "lLoad",
     "github.com/sourcenetwork/defradb/internal/core/block.GetFromNode": "lGetFromNode",
     "github.com/ipfs/go-block-format.NewBlock": "lNewBlock",
+    "github.com/sourcenetwork/defradb/net.syncDAG": "lSyncDAG",
+    "github.com/sourcenetwork/defradb/internal/core/block.GetFromBytes": "lGetFromBytes",
 }
 
 OVR = {"github.com/sourcenetwork/defradb/client.CborNil": "bytes:f6",
@@ -45,6 +47,7 @@ def jobs(tier):
     for restart in (0, 1):
         js.append({"id": f"O2.routing.calls{calls}.restart{restart}", "func": "VerifH_C15_Routing", "conf": {"calls": calls, "restart": restart, "nested": 0},
                    "_obligation": "O2", "_covers": ["configured"], "map_order": True, "unwind": 24})
+    js.append({"id": "O3.receive", "func": "VerifH_C15_Receive", "conf": {"nested": 0}, "_obligation": "O3", "_covers": ["received"]})
     js.append({"id": "twin", "func": "VerifH_C15_Reach", "conf": {"nested": 0}, "_obligation": "vacuity", "_expect": "twin", "_covers": ["end"]})
     return js
 
